@@ -20,6 +20,14 @@ pub struct TfCase {
     /// byte offsets (0..7) of the key and of the block inside 8-byte aligned buffers
     #[serde(default)]
     pub offs: (u8, u8),
+    /// number of blocks pushed through the slice API encrypt_blocks / decrypt_blocks (0 = not used)
+    #[serde(default)]
+    pub nblocks: u16,
+    /// before the cipher under test is built, another cipher is built from a *related* key (0 = none,
+    /// 1 = two key words swapped: same word-xor; 2 = same key, other tweak; 3 = one key word changed) and used
+    /// once: a later, unrelated object must not see anything of it
+    #[serde(default)]
+    pub decoy: u8,
 }
 
 fn tweak_word() -> BoxedStrategy<u64> {
@@ -47,9 +55,12 @@ pub fn tf_strategy() -> BoxedStrategy<TfCase> {
     prop_oneof![Just(256u16), Just(512u16), Just(1024u16)]
         .prop_flat_map(|bits| {
             let n = bits as usize / 8;
-            (Just(bits), key_strategy(n), (tweak_word(), tweak_word()), bytes_n(n), prop::bool::weighted(0.1), prop_oneof![2 => Just((0u8, 0u8)), 1 => (0u8..8, 0u8..8)])
+            let per_2k = (2048 / n) as u16;
+            (Just(bits), key_strategy(n), (tweak_word(), tweak_word()), bytes_n(n), prop::bool::weighted(0.1), prop_oneof![2 => Just((0u8, 0u8)), 1 => (0u8..8, 0u8..8)],
+                prop_oneof![8 => Just(0u16), 2 => 1u16..40, 2 => (1u16..4, 0u16..3).prop_map(move |(k, d)| (k * per_2k + d).saturating_sub(1))],
+                prop_oneof![3 => Just(0u8), 1 => 1u8..4])
         })
-        .prop_map(|(bits, key, tweak, block, via_new, offs)| TfCase { bits, key, tweak: if via_new { (0, 0) } else { tweak }, block, via_new, offs })
+        .prop_map(|(bits, key, tweak, block, via_new, offs, nblocks, decoy)| TfCase { bits, key, tweak: if via_new { (0, 0) } else { tweak }, block, via_new, offs, nblocks, decoy })
         .boxed()
 }
 
@@ -58,6 +69,20 @@ fn run_impl(c: &TfCase, block: &[u8], decrypt: bool) -> Vec<u8> {
         ($t:ty) => {{
             // key and block live at the generated offsets of 8-byte aligned buffers
             let n = block.len();
+            if c.decoy != 0 {
+                let mut dk = c.key.0.clone();
+                match c.decoy {
+                    1 => { for i in 0..8 { dk.swap(i, 8 + i); } }
+                    3 => dk[n - 1] ^= 0x40,
+                    _ => {}
+                }
+                let dt = if c.decoy == 2 { (c.tweak.0 ^ 1, c.tweak.1) } else { c.tweak };
+                let d = if c.via_new && c.decoy != 2 { <$t>::new(GenericArray::from_slice(&dk)) } else { <$t>::with_tweak(GenericArray::from_slice(&dk), dt.0, dt.1) };
+                let mut scratch = GenericArray::clone_from_slice(block);
+                d.encrypt_block(&mut scratch);
+                d.decrypt_block(&mut scratch);
+                std::hint::black_box(&scratch);
+            }
             let (ko, bo) = ((c.offs.0 % 8) as usize, (c.offs.1 % 8) as usize);
             let mut kbuf = vec![0u64; n / 8 + 2];
             let kbytes: &mut [u8] = unsafe { std::slice::from_raw_parts_mut(kbuf.as_mut_ptr() as *mut u8, n + 16) };
@@ -83,6 +108,8 @@ pub fn c09_check(c: &TfCase, info: &mut CaseInfo) -> Result<(), Fail> {
     let want = unwords(&threefish_encrypt(&words(&c.key.0), [c.tweak.0, c.tweak.1], &words(&c.block.0)));
     info.label(format!("Threefish{}", c.bits));
     info.label_if(c.via_new, "constructed with new()");
+    info.label_if(c.decoy != 0, "a related cipher object was built and used just before");
+    slice_check("C09", c, info)?;
     info.label_if(c.offs.1 % 8 != 0, "block at an address that is not 8-byte aligned");
     info.nontrivial = true;
     match guard(|| run_impl(c, &c.block.0, false)) {
@@ -97,9 +124,60 @@ pub fn c09_check(c: &TfCase, info: &mut CaseInfo) -> Result<(), Fail> {
     }
 }
 
+/// the slice API: n different blocks through encrypt_blocks / decrypt_blocks
+fn run_slices(c: &TfCase, decrypt: bool, blocks: &[Vec<u8>]) -> Vec<Vec<u8>> {
+    macro_rules! go {
+        ($t:ty) => {{
+            let f = <$t>::with_tweak(GenericArray::from_slice(&c.key.0), c.tweak.0, c.tweak.1);
+            let mut v: Vec<_> = blocks.iter().map(|b| GenericArray::clone_from_slice(b)).collect();
+            if decrypt { f.decrypt_blocks(&mut v) } else { f.encrypt_blocks(&mut v) }
+            v.iter().map(|b| b.to_vec()).collect()
+        }};
+    }
+    match c.bits {
+        256 => go!(Threefish256),
+        512 => go!(Threefish512),
+        _ => go!(Threefish1024),
+    }
+}
+
+fn slice_check(prop: &str, c: &TfCase, info: &mut CaseInfo) -> Result<(), Fail> {
+    if c.nblocks == 0 {
+        return Ok(());
+    }
+    let n = c.bits as usize / 8;
+    let name = format!("Threefish{}", c.bits);
+    let mut s = c.tweak.0 ^ 0x51ce;
+    let blocks: Vec<Vec<u8>> = (0..c.nblocks).map(|i| if i == 0 { c.block.0.clone() } else { crate::gen::expand(crate::engine::splitmix(&mut s), n, 0) }).collect();
+    info.label("slice API (encrypt_blocks/decrypt_blocks)");
+    info.label_if((c.nblocks as usize * n) % 2048 == 0, "slice is an exact multiple of 2 KiB");
+    let r = guard(|| {
+        let ct = run_slices(c, false, &blocks);
+        let back = run_slices(c, true, &ct);
+        (ct, back)
+    });
+    match r {
+        Err(p) => Err(Fail::new(format!("{}:{}:slice:PANIC", prop, name), p)),
+        Ok((ct, back)) => {
+            for (i, b) in blocks.iter().enumerate() {
+                let want = unwords(&threefish_encrypt(&words(&c.key.0), [c.tweak.0, c.tweak.1], &words(b)));
+                if ct[i] != want {
+                    return Err(Fail::new(format!("{}:{}:slice:ENC-WRONG", prop, name), format!("encrypt_blocks: block {} of {} differs from the reference", i, blocks.len())));
+                }
+                if back[i] != *b {
+                    return Err(Fail::new(format!("{}:{}:slice:DEC-ENC", prop, name), format!("decrypt_blocks(encrypt_blocks(x)): block {} of {} is not restored", i, blocks.len())));
+                }
+            }
+            Ok(())
+        }
+    }
+}
+
 pub fn c10_check(c: &TfCase, info: &mut CaseInfo) -> Result<(), Fail> {
     info.label(format!("Threefish{}", c.bits));
     info.nontrivial = true;
+    info.label_if(c.decoy != 0, "a related cipher object was built and used just before");
+    slice_check("C10", c, info)?;
     let r = guard(|| {
         let ct = run_impl(c, &c.block.0, false);
         let back = run_impl(c, &ct, true);
@@ -128,7 +206,7 @@ pub fn c10_check(c: &TfCase, info: &mut CaseInfo) -> Result<(), Fail> {
 }
 
 pub fn run_c09(ctx: &mut Ctx) {
-    let n = ctx.count(500_000, 5_000_000);
+    let n = ctx.count(250_000, 5_000_000);
     ctx.run("encrypt", n, tf_strategy(), c09_check);
     ctx.required_classes.push("constructed with new()".into());
     for b in [256, 512, 1024] {
@@ -137,6 +215,6 @@ pub fn run_c09(ctx: &mut Ctx) {
 }
 
 pub fn run_c10(ctx: &mut Ctx) {
-    let n = ctx.count(300_000, 3_000_000);
+    let n = ctx.count(200_000, 3_000_000);
     ctx.run("roundtrip", n, tf_strategy(), c10_check);
 }
